@@ -1867,8 +1867,49 @@ def refactors_for(pid):
     return out
 
 
-def run(pid, jobs=None, only=None):
+def probes_for(pid):
+    """whole-tree behaviour-preserving transformations (allfedsa/probes.py): re-emit every file; rename every local of one file"""
+    from . import probes
+    out = [{"pid": pid, "name": "probe:reformat", "probe": ("reformat", None), "expect": None}]
+    for p in probes.source_files(REPO):
+        rel = os.path.relpath(p, REPO)
+        if rel.endswith("__init__.py") or "plot" in rel:
+            continue
+        src = open(p, encoding="utf-8").read()
+        if "def " not in src:
+            continue
+        out.append({"pid": pid, "name": "probe:rename-locals:" + rel, "probe": ("rename", rel), "expect": None})
+    return out
+
+
+def _run_probe(m, base_known):
+    from . import probes
+    tmp = tempfile.mkdtemp(prefix="allfedsa_probe_")
+    try:
+        _make_scratch(tmp)
+        kind, rel = m["probe"]
+        if kind == "reformat":
+            probes.reformat_tree(tmp)
+        else:
+            if probes.rename_file(tmp, rel) == 0:
+                return m["name"], "silent", "nothing to rename"
+        env = dict(os.environ)
+        env["ALLFEDSA_REPO"] = tmp
+        env["ALLFEDSA_EVIDENCE_DIR"] = os.path.join(tmp, "_evidence")
+        p = subprocess.run([sys.executable, "-m", "allfedsa.cli", m["pid"], "--tier", "quick"], cwd=VERIF, env=env, capture_output=True, text=True)
+        known = sorted(l for l in p.stdout.splitlines() if l.startswith("KNOWN-FINDING"))
+        if p.returncode == 0 and known == base_known:
+            return m["name"], "silent", ""
+        return m["name"], "noisy", f"rc={p.returncode} " + " | ".join(
+            l.strip() for l in p.stdout.splitlines() if "VIOLATION" in l or "ANALYSIS-ERROR" in l or l.startswith("  C"))[:600]
+    finally:
+        shutil.rmtree(tmp, ignore_errors=True)
+
+
+def run(pid, jobs=None, only=None, with_probes=True):
     ms = [m for m in CORPUS if m["pid"] == pid and (only is None or m["name"] in only)]
+    if with_probes:
+        ms += [m for m in probes_for(pid) if only is None or m["name"] in only]
     ms += [m for m in seeded_for(pid) if only is None or m["name"] in only]
     ms += [m for m in refactors_for(pid) if only is None or m["name"] in only]
     res = {"mutants": 0, "killed": 0, "refactors": 0, "silent": 0, "survived": [], "noisy": [], "stale": []}
@@ -1883,7 +1924,8 @@ def run(pid, jobs=None, only=None):
         shutil.rmtree(tmpev, ignore_errors=True)
     jobs = jobs or min(16, os.cpu_count() or 4)
     with cf.ThreadPoolExecutor(max_workers=jobs) as ex:
-        futs = [ex.submit(_run_seeded, m, base_known) if "patch" in m else ex.submit(_run_one, m, base_known) for m in ms]
+        futs = [ex.submit(_run_probe, m, base_known) if "probe" in m else ex.submit(_run_seeded, m, base_known) if "patch" in m
+                else ex.submit(_run_one, m, base_known) for m in ms]
         for m, fu in zip(ms, futs):
             name, status, info = fu.result()
             if m["expect"] is None:
